@@ -109,12 +109,18 @@ def gates(R, prog):
                    require=lambda st, ev: 'S:fields' in st or 'S:failed' in st,
                    key_fn=lambda ev, T=T: '%s.K7:DeserializerIOV::deserialize<%s>:reject-sets-failed' % (P, T),
                    describe=lambda ev: 'a rejected body/checksum sets `failed`', min_sites=1, what='return')
-        for e in f.exprs:
-            if e['k'] == 'return':
-                se = f.x(f.skip(e['sub']))
-                ok = se is not None and se['k'] == 'cond' and f.path(se['c']) == 'this->failed' and f.const(se['t']) == 0 and f.path(se['f']) in bodies
-                key = '%s.K6:DeserializerIOV::deserialize<%s>:null-when-failed' % (P, T)
-                (R.held if ok else R.violated)(P + '.K6', key, f.id, f.locl(e['loc']), 'returns %s' % f.show(e['sub']))
+        def null_when_failed(st, ev, f=f, bodies=bodies):
+            se = f.x(f.skip(ev.e['sub']))
+            if se is None:
+                return False
+            if f.const(ev.e['sub']) == 0:
+                return True                                   # nullptr is always a safe answer
+            if se['k'] == 'cond' and f.path(se['c']) == 'this->failed' and f.const(se['t']) == 0 and f.path(se['f']) in bodies:
+                return True                                   # failed ? nullptr : t
+            return f.path(ev.e['sub']) in bodies and 'G:this->failed=F' in st      # plain `t`, only where failed is known false
+        K.check_at(R, P + '.K6', G, res, lambda ev: ev.kind == 'return' and ev.depth == 0, null_when_failed,
+                   key_fn=lambda ev, T=T: '%s.K6:DeserializerIOV::deserialize<%s>:null-when-failed' % (P, T),
+                   describe=lambda ev: 'the message pointer is returned only when `failed` is false (returns %s)' % ev.show(ev.e['sub']), min_sites=1, what='return')
     # checksum
     fs = [f for f in prog.funcs.values() if f.nname == NS + 'CheckedMessage::validate_checksum']
     R.require(len(fs) >= 1, 'C12: CheckedMessage::validate_checksum not instantiated')
